@@ -8,7 +8,7 @@
    [asg_get a m] = assignments.get(m, {}); [parts_of d t] = d.get(t, []);
    [assigned_count a ids t p] = number of occurrences of p under topic t, summed over the members ids.
    No bound on the number of members, topics, partitions, or on the length of names. *)
-From AV Require Import Base.Util Model.Assign Proofs.AssignDict Proofs.AssignCodec Proofs.AssignLeader Proofs.AssignC15 Proofs.AssignFuel.
+From AV Require Import Base.Util Model.Assign Proofs.AssignDict Proofs.AssignCodec Proofs.AssignLeader Proofs.AssignC15 Proofs.AssignFuel Proofs.AssignSnapshot Proofs.AssignCompose.
 From Coq Require Import Sorting.Permutation.
 
 (* When the leader's computation is defined, and that the inner `while` never spins for ever:
@@ -26,7 +26,24 @@ Theorem C15_assign_defined : forall members tp,
 Proof. exact c15_assign_defined. Qed.
 Print Assumptions C15_assign_defined.
 
-(* all_topics is exactly the set of topics some member subscribes *)
+(* The leader's two calls (_group.py:490-501) and what the second one REQUIRES of the snapshot returned by
+   client._load_topic_partitions: the first call, with no partition map, always asks for exactly the subscribed
+   topics; the second call yields an assignment iff the snapshot has an entry for each of them (the documented
+   contract "An entry is present for each requested topic", client.py:416, here the boolean snapshot_covers);
+   otherwise _NeedTopicPartitions is raised AGAIN - inside the except block, so nothing catches it and no
+   assignment is produced.  Every other theorem below speaks about the Ok case, i.e. assumes this precondition;
+   whether the real client honours it is checked by the run (streams 7/8 of harness/props/C15.py), not proved. *)
+Theorem C15_leader_two_calls : forall members tp,
+  let ts := all_topics (build_md members) in
+  ts <> [] ->
+  leader_assign members [] = Err (ENeed (str_sort ts)) /\
+  (if snapshot_covers members tp
+   then exists a, leader_assign members tp = Ok a
+   else leader_assign members tp = Err (ENeed (str_sort ts))).
+Proof. exact c15_leader_two_calls. Qed.
+Print Assumptions C15_leader_two_calls.
+
+(* all_topics is exactly the set of topics some member subscribes (auxiliary) *)
 Theorem C15_all_topics : forall members t,
   In t (all_topics (build_md members)) <-> some_subscriber (build_md members) t = true.
 Proof. exact c15_all_topics. Qed.
@@ -130,6 +147,24 @@ Theorem C15_metadata_roundtrip : forall v subs ud b, enc_metadata v subs ud = Ok
 Proof. exact enc_dec_metadata. Qed.
 Print Assumptions C15_metadata_roundtrip.
 
+(* Reordering or repeating topic names INSIDE a member's subscription list changes nothing: neither the
+   assignment nor the encoded output (audit 2.3; ids may even repeat, positions must correspond). *)
+Theorem C15_subscription_listing_irrelevant : forall members members' tp, subs_equiv members members' ->
+  leader_assign members tp = leader_assign members' tp /\
+  generate_assignments members tp = generate_assignments members' tp.
+Proof. exact c15_subs_equiv. Qed.
+Print Assumptions C15_subscription_listing_irrelevant.
+
+(* Composition (audit 2.4): starting from the metadata BYTES each member wrote with
+   encode_join_group_protocol_metadata (any version / user data), the leader's generate_assignments - which
+   decodes them first, _group.py:612-614 - is generate_assignments on the members' own subscription lists; so every
+   theorem above applies to what the leader computes from the wire.  (Names as UTF-8 byte strings; the text <->
+   UTF-8 step is CPython's and trusted.) *)
+Theorem C15_bytes_to_assignment : forall members raw tp, encoded_members members raw ->
+  generate_assignments_raw raw tp = generate_assignments members tp.
+Proof. exact c15_bytes_to_assignment. Qed.
+Print Assumptions C15_bytes_to_assignment.
+
 (* The decoder models are total for the right reason (audit 2.2): on ARBITRARY bytes - hostile counts
    included - the out-of-fuel artefact of the model is unreachable (fuel S (length data); every iteration
    of `for _ in range(n)` consumes at least six resp. two bytes or raises).  So every Err of the decoders
@@ -217,3 +252,26 @@ Proof. vm_compute. reflexivity. Qed.
 Example ex_hostile_count : dec_assignment [0; 0; 127; 255; 255; 255; 0; 1; 116; 0] = Err EUnderflow /\
   dec_metadata [0; 0; 127; 255; 255; 255; 0; 0; 0; 0] = Err EUnderflow.
 Proof. vm_compute. auto. Qed.
+(* the snapshot precondition holds of the running example, and fails for a snapshot that lacks the subscribed
+   topic "u" (what the real client returns when a metadata response omits u): the second call raises again *)
+Example ex_snapshot : snapshot_covers ex_members ex_tp = true /\
+  snapshot_covers ex_members [([116], [7; 0; 3; 5; 9])] = false /\
+  leader_assign ex_members [([116], [7; 0; 3; 5; 9])] = Err (ENeed [[116]; [117]]) /\
+  all_topics (build_md ex_members) <> [].
+Proof. vm_compute. repeat split; discriminate. Qed.
+(* subscriptions listed in another order / twice, and the members' real metadata bytes *)
+Example ex_subs_equiv : subs_equiv ex_members [([99], [[117]; [116]; [117]]); ([97], [[116]; [116]]); ([98], [[116]; [117]]); ([100], [])].
+Proof. unfold subs_equiv, ex_members. repeat (constructor; [split; [reflexivity | intro t; cbn [In fst snd]; tauto]|]). constructor. Qed.
+Example ex_raw : exists raw, encoded_members ex_members raw /\
+  generate_assignments_raw raw ex_tp = generate_assignments ex_members ex_tp /\
+  hd_error raw = Some ([99], [0; 0; 0; 0; 0; 2; 0; 1; 116; 0; 1; 117; 0; 0; 0; 0]).
+Proof.
+  exists [([99], [0; 0; 0; 0; 0; 2; 0; 1; 116; 0; 1; 117; 0; 0; 0; 0]); ([97], [0; 0; 0; 0; 0; 1; 0; 1; 116; 255; 255; 255; 255]);
+          ([98], [0; 0; 0; 0; 0; 3; 0; 1; 117; 0; 1; 116; 0; 1; 116; 0; 0; 0; 0]); ([100], [0; 0; 0; 0; 0; 0; 0; 0; 0; 0])].
+  split; [|split; [vm_compute; reflexivity | reflexivity]].
+  repeat constructor; cbn [fst snd].
+  - exists 0, (Some []). vm_compute. reflexivity.
+  - exists 0, None. vm_compute. reflexivity.
+  - exists 0, (Some []). vm_compute. reflexivity.
+  - exists 0, (Some []). vm_compute. reflexivity.
+Qed.
